@@ -76,7 +76,15 @@ def get_type(case):
                 _types[key] = restricted_number_type(name, base, restr[0], join=case["join"])
             else:
                 working = list(restr)  # the caller's list object
-                _types[key] = restricted_number_type(name, base, working, join=case["join"])
+                if kind == "none" and "after" in case:
+                    # no history: the type gets its automatic name (name=None); two types whose automatic names fall
+                    # together ("float_gt15" for 1.5 and 15) are refused by add_type — then an explicit name is given
+                    try:
+                        _types[key] = restricted_number_type(None, base, working, join=case["join"])
+                    except ValueError:
+                        _types[key] = restricted_number_type(name, base, working, join=case["join"])
+                else:
+                    _types[key] = restricted_number_type(name, base, working, join=case["join"])
                 cmp = None
                 if after.get("cmp"):
                     cmp = (after["cmp"][0], dec_pv(after["cmp"][1]))
@@ -206,6 +214,45 @@ def channels(T, v, eq=None):
         except BaseException as e:  # noqa
             res[name] = False
             res[name + "_exc"] = type(e).__name__ + ": " + str(e)[:120]
+    # the same value under an Any-typed argument (serialised by the handler of type(value)) and inside containers
+    # (Optional / List / Dict): every dump shows the same config representation, every parse gives equal values back
+    from typing import Any, Dict, List, Optional
+
+    def all_eq(got, want):
+        if isinstance(want, list):
+            return isinstance(got, list) and len(got) == len(want) and all(eq(a, b) for a, b in zip(got, want))
+        if isinstance(want, dict):
+            return isinstance(got, dict) and sorted(got) == sorted(want) and all(eq(got[k], want[k]) for k in want)
+        return bool(eq(got, want))
+
+    nested = True
+    try:
+        qa, _ = parser_for(Any)
+        if qa.dump(Namespace(k=v)) != dump:
+            nested = False
+            res["any_dump"] = qa.dump(Namespace(k=v))[:200]
+        import yaml
+
+        try:
+            spells_none = isinstance(ser, str) and yaml.safe_load(ser) is None
+        except yaml.YAMLError:
+            spells_none = False
+        for hint, val in ((Optional[T], v), (List[T], [v, v]), (Dict[str, T], {"a": v, "b": v})):
+            if hint == Optional[T] and spells_none:
+                continue  # a text that spells None ("null", "~", "#c", "&a") IS None for an Optional argument (C02's business)
+            q, _ = parser_for(hint)
+            d = q.dump(Namespace(k=val))
+            dj = q.dump(Namespace(k=val), format="json")
+            for label, got in (("string", q.parse_string(d).k), ("json", q.parse_string(dj).k), ("file", parse_file(q, d)),
+                               ("object", q.parse_object({"k": val}).k)):
+                if not all_eq(got, val):
+                    nested = False
+                    res["nested_got"] = "%s %s: %r" % (getattr(hint, "_name", hint), label, got)
+                    res["nested_got"] = res["nested_got"][:200]
+    except BaseException as e:  # noqa
+        nested = False
+        res["nested_exc"] = type(e).__name__ + ": " + str(e)[:160]
+    res["nested"] = nested
     return res, vals
 
 
@@ -253,7 +300,7 @@ def run_range(case):
         res["back"] = [str(back.start), str(back.stop), str(back.step)]
     except ValueError:
         res["back"] = None
-    res["chan_ok"] = all(res.get(k) is True for k in ("string", "argv", "file", "json", "object", "reparse", "reparse_string"))
+    res["chan_ok"] = all(res.get(k) is True for k in ("string", "argv", "file", "json", "object", "reparse", "reparse_string", "nested"))
     return res
 
 
@@ -280,7 +327,7 @@ def run_td(case):
     td = timedelta(microseconds=1) * int(case["total"])
     res, _ = channels(timedelta, td)
     res.update(run_tddes({"value": {"s": res["ser"]}}))
-    res["chan_ok"] = all(res.get(k) is True for k in ("string", "argv", "file", "json", "object", "reparse", "reparse_string"))
+    res["chan_ok"] = all(res.get(k) is True for k in ("string", "argv", "file", "json", "object", "reparse", "reparse_string", "nested"))
     return res
 
 
@@ -311,9 +358,24 @@ def run_secret(case):
     out["argv_kept"] = type(cfg.k) is SecretStr and cfg.k.get_secret_value() == s
     same = p.parse_object({"k": v}).k  # a SecretStr passes the registered-type branch unchanged
     out["parsed_ok"] = bool(type(same) is SecretStr and same.get_secret_value() == s)
+    # "an equal value": equality of secrets is equality of what they hold (same length, other content differs),
+    # consistent with hash and len; a secret is no plain string
+    other = SecretStr(s[1:] + ("x" if s[0] != "x" else "y"))
+
+    def eq_sound(x):
+        return bool(x == SecretStr(s) and x == v and not (x != v) and x != other and not (x == other) and x != s
+                    and hash(x) == hash(SecretStr(s)) and len(x) == len(s) and len({x, v, other}) == 2)
+
+    out["parsed_ok"] = out["parsed_ok"] and eq_sound(same) and (eq_sound(cfg.k) if out["argv_kept"] else True)
     for c in (Namespace(k=v), cfg):
         texts.append(p.dump(c))
         texts.append(p.dump(c, format="json"))
+    # dumped under an Any-typed argument and inside containers the secret is masked as well
+    from typing import Any, Dict, List, Optional
+    for hint, val in ((Any, v), (Optional[SecretStr], v), (List[SecretStr], [v, v]), (Dict[str, SecretStr], {"a": v})):
+        q, _ = parser_for(hint)
+        texts.append(q.dump(Namespace(k=val)))
+        texts.append(q.dump(Namespace(k=val), format="json"))
     if scratch is None:
         scratch = tempfile.mkdtemp(prefix="jv_c20_")
     path = os.path.join(scratch, "saved.yaml")
@@ -363,7 +425,7 @@ def _run_decimal(case, d):
     if res["ser_type"] not in ("float", "str"):
         return {"crash": "serializer returned " + res["ser_type"]}
     res["file_equal"] = bool(res.get("string") is True and res.get("file") is True and res.get("object") is True
-                             and res.get("reparse_string") is True)
+                             and res.get("reparse_string") is True and res.get("nested") is True)
     res["argv_equal"] = bool(res.get("argv") is True and res.get("reparse") is True)
     res["json_equal"] = bool(res.get("json") is True)
     return res
@@ -390,7 +452,7 @@ def run_builtin(case):
     else:
         raise SystemExit("unknown builtin " + t)
     res, _ = channels(T, v, eq)
-    res["all_equal"] = all(res.get(k) is True for k in ("string", "argv", "file", "json", "object", "reparse", "reparse_string"))
+    res["all_equal"] = all(res.get(k) is True for k in ("string", "argv", "file", "json", "object", "reparse", "reparse_string", "nested"))
     return res
 
 
@@ -468,7 +530,121 @@ def run_rstrhist(case):
     return {"created": True, "acc": str(r)}
 
 
+_nhist = {}
+
+
+def run_numhist(case):
+    """A registry history of restricted NUMBER types: restricted_number_type(nameA, t1) and then (name A again, or B)
+    t2; the references of a history are its own, so neither key is in the registry before. What the second call
+    hands back (if anything) is asked about the value."""
+    key = json.dumps([case["hist"], case["t1"], case["t2"], case["same_name"]], sort_keys=True)
+    if key not in _nhist:
+        def mk(name, t):
+            base = int if t["base"] == "int" else float
+            restr = [(sym, dec_pv(ref)) for sym, ref in t["restr"]]
+            return restricted_number_type(name, base, restr, join=t["join"]), base
+
+        stem = "C20N%d%s" % (case["hist"], "s" if case["same_name"] else "o")
+        try:
+            mk(stem + "A", case["t1"])
+        except ValueError:
+            pass
+        try:
+            _nhist[key] = mk(stem + ("A" if case["same_name"] else "B"), case["t2"])
+        except ValueError:
+            _nhist[key] = None
+    if _nhist[key] is None:
+        return {"created": False, "acc": None}
+    T, base = _nhist[key]
+    try:
+        r = T(dec_pv(case["value"]))
+    except Exception as e:
+        return {"created": True, "acc": None, "exc": type(e).__name__}
+    return {"created": True, "acc": enc_pv(base(r))}
+
+
+def _fn_name(f, T=None):
+    import jsonargparse.typing as jt
+
+    if f is None or (T is not None and f is T):
+        return None  # register_type's default: the class itself
+    for n in ("decimal_serializer", "decimal_deserializer", "timedelta_deserializer", "bytes_serializer", "bytes_deserializer",
+              "bytearray_deserializer", "range_serializer", "range_deserializer"):
+        if f is getattr(jt, n, None):
+            return n
+    if f is str:
+        return "str"
+    if f is float:
+        return "float"
+    return getattr(f, "__name__", "?")
+
+
+def _builtin_type(name):
+    import datetime
+    import decimal
+    import pathlib
+    import uuid
+
+    return {"complex": complex, "decimal.Decimal": decimal.Decimal, "uuid.UUID": uuid.UUID, "pathlib.Path": pathlib.Path,
+            "pathlib.PosixPath": pathlib.PosixPath, "datetime.timedelta": datetime.timedelta, "builtins.bytes": bytes,
+            "builtins.bytearray": bytearray, "range": range, "SecretStr": SecretStr}[name]
+
+
+class _UserType:
+    def __init__(self, v):
+        self.v = v
+
+
+def run_reghist(case):
+    """One call of register_type on the table as imported (restored afterwards): the pair of a registered type
+    again / another serializer / another deserializer, with the default flags, with fail_already_registered=False,
+    with a uniqueness key; or a class nobody registered. Observed: ValueError or not, the pair in force afterwards."""
+    import jsonargparse.typing as jt
+
+    new = case["type"] == "user"
+    T = type("C20User", (_UserType,), {}) if new else _builtin_type(case["type"])
+    h0 = get_registered_type(T)
+    before = dict(jt.registered_type_handlers)
+    keys_before = dict(jt.registered_types)
+    ser0, des0 = (str, None) if new else (h0.serializer, h0.base_deserializer)
+    action = case["action"]
+    ser, des, kw = ser0, des0, {}
+    if action == "defaults":
+        ser, des = str, None
+    elif action == "other_ser":
+        ser = repr
+    elif action == "other_des":
+        des = ascii
+    elif action == "force":
+        ser, des, kw = repr, ascii, {"fail_already_registered": False}
+    elif action == "force_same":
+        kw = {"fail_already_registered": False}
+    elif action == "key":
+        ser, des, kw = repr, ascii, {"uniqueness_key": ("c20 reghist", case["type"])}
+    try:
+        try:
+            if des is None and ser is str and action == "defaults":
+                jt.register_type(T, **kw)
+            else:
+                jt.register_type(T, ser, des, **kw)
+            refused = False
+        except ValueError:
+            refused = True
+        h1 = jt.registered_type_handlers.get(T)
+        out = {"ser": _fn_name(ser), "des": _fn_name(des, T), "fail": kw.get("fail_already_registered", True),
+               "key": "uniqueness_key" in kw, "refused": refused,
+               "after": None if h1 is None else [_fn_name(h1.serializer), _fn_name(h1.base_deserializer, T)],
+               "was": None if h0 is None else [_fn_name(h0.serializer), _fn_name(h0.base_deserializer, T)]}
+    finally:
+        jt.registered_type_handlers.clear()
+        jt.registered_type_handlers.update(before)
+        jt.registered_types.clear()
+        jt.registered_types.update(keys_before)
+    return out
+
+
 RUN = {
+    "numhist": run_numhist, "reghist": run_reghist,
     "num": run_num, "numparse": run_numparse, "range": run_range, "rangedes": run_rangedes, "td": run_td,
     "tddes": run_tddes, "secret": run_secret, "decimal": run_decimal, "builtin": run_builtin, "rstr": run_rstr, "rstrhist": run_rstrhist,
 }
